@@ -950,10 +950,15 @@ func canonKey(k reflect.Value) string {
 
 var inactiveSeq = map[uintptr]int{}
 
+var inactiveSeqMu gosync.Mutex
+
 func ptrSeq(p uintptr) int {
 	m := inactiveSeq
 	if S != nil {
 		m = S.seq
+	} else {
+		inactiveSeqMu.Lock()
+		defer inactiveSeqMu.Unlock()
 	}
 	if v, ok := m[p]; ok {
 		return v
